@@ -1,6 +1,7 @@
 /- Driver handlers for feature structures. -/
 import PflDrv.Json
 import Pfl.Model.Feature
+import Pfl.Oracle.FsGround
 open Lean Pfl
 namespace PflDrv
 
@@ -19,8 +20,24 @@ partial def asFS (j : Json) : R FS := do
 def jLeaves (l : List (List String × Option String)) : Json :=
   jList (fun e => Json.arr #[jList jStr e.1, jOpt jStr e.2]) l
 
+open FsGround in
+def asSFS (j : Json) : R SFS := do
+  (← asArr j).mapM fun e => do
+    match ← asArr e with
+    | [p, k, v] =>
+      let p ← asStrList p
+      let k ← asStr k
+      let v ← asStr v
+      pure (p, if k == "atom" then Leaf.atom v else if k == "var" then Leaf.var v else Leaf.free)
+    | _ => throw "bad leaf"
+
 def fsHandle (op : String) (j : Json) : R Json := do
   match op with
+  | "fs.meaning" =>   -- oracle
+    let paths ← (← asArr (← field j "paths")).mapM asStrList
+    let vals ← asStrList (← field j "vals")
+    let ss ← (← asArr (← field j "structures")).mapM asSFS
+    pure (jList jNatList (ss.map (FsGround.meaning paths vals)))
   | "fs.unify" =>
     let a ← asFS (← field j "a")
     let b ← asFS (← field j "b")
